@@ -115,7 +115,7 @@ PROPS["C12"] = dict(
         dict(test="^Test(Regress_C12|C12_Write|C12_MissingName)$", quick=dict(checks=250, timeout=900), thorough=dict(checks=2500, shards=12, timeout=3000)),
         dict(test="^TestC12_OverflowReuse$", quick=dict(checks=25, timeout=900), thorough=dict(checks=150, shards=6, timeout=3000)),
         dict(test="^TestC12_Restart$", quick=dict(checks=60, timeout=900), thorough=dict(checks=1500, shards=4, timeout=3000)),
-        dict(test="^TestC12_StrangeName$", quick=dict(checks=20, timeout=900), thorough=dict(checks=150, shards=4, timeout=3000)),
+        dict(test="^TestC12_StrangeName$", quick=dict(checks=15, timeout=900), thorough=dict(checks=150, shards=4, timeout=3000)),
     ],
 )
 
